@@ -1,6 +1,6 @@
 (* C16 -- property theorems (statements only; proofs are in C16Proofs.v). *)
 From Coq Require Import NArith Bool.
-From C16 Require Import C16Spec C16Model C16Proofs.
+From C16 Require Import C16Spec C16Flocq C16Model C16Proofs.
 Local Open Scope N_scope.
 
 (* float: for EVERY bit pattern the shift/mask code returns the IEEE class of (exponent field, fraction field) *)
